@@ -89,6 +89,13 @@ func scalarClass(name string, p *prg) *big.Int {
 		return new(big.Int).Sub(lambdaGLV, one)
 	case "-lam":
 		return new(big.Int).Sub(modR, lambdaGLV)
+	case "2^64+1", "2^128+1", "2^192+1", "2^69+2^5", "2^200+2^8", "3bits": // several set bits at the SAME position of different 64-bit limbs
+		v := map[string][]uint{"2^64+1": {64, 0}, "2^128+1": {128, 0}, "2^192+1": {192, 0}, "2^69+2^5": {69, 5}, "2^200+2^8": {200, 8}, "3bits": {191, 127, 63}}[name]
+		x := new(big.Int)
+		for _, b := range v {
+			x.SetBit(x, int(b), 1)
+		}
+		return x
 	default:
 		if v := montClass(name); v != nil {
 			return v
